@@ -63,11 +63,14 @@ static struct upipe *vp_call_alloc(struct upipe_mgr *mgr, struct uprobe *uprobe,
             groups.append({'name': op + ('_out%d' % wo if has_out and op != 'alloc' else ''), 'entry': 'h_' + op, 'enforce': None, 'dfcc': False,
                            'defines': ['VP_WITH_OUTPUT=%d' % wo], 'unwind': (9 if name == 'htons' else 6), 'unwindset': ['stub_udict_control.0:18', 'strlen.0:18'], 'timeout': 600, 'properties': props,
                            'object_bits': 12, 'cost': 2, 'cbmc_flags': [] if op == 'alloc' else ['--no-malloc-may-fail']})
+    if has_out and name in ('idem', 'probe_uref', 'delay', 'noclock', 'nodemux', 'setrap', 'multicat_probe', 'setflowdef', 'skip'):
+        groups.append({'name': 'input_lazy', 'entry': 'h_input', 'enforce': None, 'dfcc': False, 'defines': ['VP_WITH_OUTPUT=0', 'VP_LAZY=1'], 'unwind': 6,
+                       'unwindset': ['stub_udict_control.0:18', 'strlen.0:18'], 'timeout': 600, 'properties': ['C05', 'C04'], 'object_bits': 12, 'cost': 2, 'cbmc_flags': ['--no-malloc-may-fail']})
     u = {'unit': 'flow_' + name, 'properties': ['C04'], 'source': 'contract.c',
          'files': ['lib/upipe-modules/upipe_%s.c' % stem, 'include/upipe/upipe_helper_output.h (instantiated by the pipe)', 'include/upipe/upipe_helper_void.h',
                    'include/upipe/upipe.h (upipe_input / upipe_control / upipe_release brackets)', 'include/upipe/uref.h (uref_free, uref_dup)'],
          'fp': {'upipe_alloc': ['upipe_%s_alloc' % name], 'upipe_input': [inp, 'stub_out_input'], 'upipe_control': ['upipe_%s_control' % name, 'stub_out_control'],
-                'cb': ['upipe_%s_dead_urefcount' % name, 'stub_out_dead']},
+                'cb': ['upipe_%s_dead_urefcount' % name, 'stub_out_dead'], 'uprobe_throw': ['stub_probe_throw', 'stub_probe_lazy_tpl']},
          'trusted_base': ['stubs/vstub_pipe.h: recording probe (returns any error code, keeps no pointer), recording downstream pipe (accepts or rejects a flow definition arbitrarily, owns and frees the buffers it receives), counting uref/udict/ubuf managers with arbitrary answers (over-approximation of every well-behaved manager)',
                           'dictionary comparison replaced by its contract (equal iff same content id); the real udict_cmp is under contract in the dictionary units (C10)'],
          'assumptions': ['flow_%s: every operation is checked from an arbitrary state satisfying INV_out (built from the state the real allocator leaves by assigning the output helper\'s fields: output in {none, the stub}, definition present or not, the three output states, what the output last accepted in {nothing, the current definition, another one}); request list empty' % name,
